@@ -1322,8 +1322,512 @@ def part_histens(ctx, spec):
 
 
 # =====================================================================================================
-EXEC = {"rv": exec_rv, "ra": exec_ra, "mol": exec_mol, "dih": exec_dih, "ens": exec_ens, "aln": exec_aln, "hist": exec_hist, "histens": exec_histens}
-PARTS = {"rv_pairs": part_rv_pairs, "rv_anti": part_rv_anti, "ra": part_ra, "mol": part_mol, "dih": part_dih, "ens": part_ens, "aln": part_aln, "hist": part_hist, "histens": part_histens}
+# arg : a function must leave its ARGUMENTS alone, whatever kind of array-like they are
+# own : ... in particular when an argument is a VIEW into the coordinates of the very object worked on
+# =====================================================================================================
+ARG_KINDS = ("float64", "float64-strided-view", "float64-readonly", "float32", "int64", "list", "tuple")
+
+
+def _as_tuple(x):
+    return tuple(_as_tuple(y) for y in x) if isinstance(x, list) else x
+
+
+class Arg:
+    """one argument in one representation, with a snapshot to compare against after the call"""
+
+    def __init__(self, values, kind):
+        a = np.array(values, dtype=float)
+        self.kind = kind
+        self.holder = None
+        if kind == "float64":
+            self.obj = a.copy()
+        elif kind == "float64-strided-view":
+            big = np.full(a.shape[:-1] + (2 * a.shape[-1],), 7.25)
+            big[..., ::2] = a
+            self.holder = big
+            self.obj = big[..., ::2]
+        elif kind == "float64-readonly":
+            self.obj = a.copy()
+            self.obj.flags.writeable = False
+        elif kind == "float32":
+            self.obj = a.astype(np.float32)
+        elif kind == "int64":
+            self.obj = a.astype(np.int64)
+        elif kind == "list":
+            self.obj = a.tolist()
+        elif kind == "tuple":
+            self.obj = _as_tuple(a.tolist())
+        else:
+            raise KeyError(kind)
+        self.value = np.array(self.obj, dtype=float)  # what the callee is entitled to see
+        self.snap = self._snapshot()
+
+    def _snapshot(self):
+        o = self.obj
+        if isinstance(o, np.ndarray):
+            h = None if self.holder is None else self.holder.tobytes()
+            return ("nd", o.dtype.str, o.shape, o.strides, np.ascontiguousarray(o).tobytes(), h)
+        return ("py", type(o).__name__, repr(o))
+
+    def intact(self):
+        return self._snapshot() == self.snap
+
+
+def _kinds_for(values):
+    a = np.array(values, dtype=float)
+    ks = [k for k in ARG_KINDS if k != "int64" or np.all(a == np.round(a))]
+    return ks
+
+
+def _check_args(ctx, fn, case, args):
+    bad = [nm for nm, a in args if not a.intact()]
+    if bad:
+        ctx.violation(f"{fn}:argument-array-modified", f"{fn} changed its argument(s) {bad} (passed as {[a.kind for _, a in args]})", case)
+        return False
+    return True
+
+
+def exec_arg(ctx, case):
+    fn = case["fn"]
+    kind = case["kind"]
+    loose = kind == "float32"
+    tol = 1e-5 if loose else TOL
+    ctx.count(evaluations=1, states=1, transitions=1, traces=1)
+    ok = True
+    try:
+        if fn == "rotation_matrix_from_vectors":
+            a1 = Arg(case["v1"], kind if case.get("which", "both") in ("both", "v1") else "list")
+            a2 = Arg(case["v2"], kind if case.get("which", "both") in ("both", "v2") else "list")
+            with N.RandSeam(N.answer_sequence(N.RNG_MENU[0])):
+                R = np.asarray(rotation_matrix_from_vectors(a1.obj, a2.obj), dtype=float)
+            ok = _check_args(ctx, fn, case, [("v1", a1), ("v2", a2)])
+            opc = _one_plus_c(a1.value, a2.value)
+            t = max(tol, rv_tol(opc))
+            if loose and opc < 1e-3:
+                # single-precision input next to the antiparallel switch (tol=1e-8 is below float32 resolution):
+                # outside what the property states; only the argument's integrity is judged
+                ctx.add_note("arg_float32_near_antiparallel_result_not_judged")
+            elif ok and (not np.all(np.isfinite(R)) or np.max(np.abs(R @ R.T - np.eye(3))) > t or np.max(np.abs(N.unit(a1.value) @ R - N.unit(a2.value))) > t):
+                ctx.violation(f"{fn}:argument-kind-dependent-result", f"{fn} with {kind} arguments is not the proper rotation v1 -> v2", case)
+                ok = False
+        elif fn == "rotation_matrix_from_axis":
+            a1 = Arg(case["axis"], kind)
+            R = np.asarray(rotation_matrix_from_axis(a1.obj, float(case["angle"])), dtype=float)
+            ok = _check_args(ctx, fn, case, [("axis", a1)])
+            if ok and (not np.all(np.isfinite(R)) or np.max(np.abs(R @ R.T - np.eye(3))) > tol or np.max(np.abs(R @ N.unit(a1.value) - N.unit(a1.value))) > tol):
+                ctx.violation(f"{fn}:argument-kind-dependent-result", f"{fn} with a {kind} axis is not a proper rotation about that axis", case)
+                ok = False
+        elif fn.startswith(("Molecule.", "Substructure.")):
+            m, base = _posed_mol(ctx, case["mol"])
+            n = m.n_atoms
+            sel = [int(x) for x in case.get("sel", range(n))]
+            tgt = m if fn.startswith("Molecule.") else m.substructure(list(sel))
+            rows = list(range(n)) if fn.startswith("Molecule.") else sel
+            srt = sorted(set(rows))
+            if fn.endswith(".translate"):
+                a1 = Arg(case["vec"], kind)
+                tgt.translate(a1.obj)
+                expected = base[srt] + a1.value
+            elif fn.endswith(".transform"):
+                a1 = Arg(N.rot_axis_angle(*case["rot"]), kind)
+                tgt.transform(a1.obj)
+                expected = base[srt] @ a1.value
+            elif fn.endswith(".coords="):
+                a1 = Arg(base[rows] @ N.rot_axis_angle(*case["rot"]) + np.array(case["vec"], dtype=float), kind)
+                tgt.coords = a1.obj
+                expected = a1.value[np.argsort(np.array(rows), kind="stable")]
+            else:
+                raise KeyError(fn)
+            ok = _check_args(ctx, fn, case, [("arg", a1)])
+            after = np.asarray(m.coords)
+            others = [i for i in range(n) if i not in set(rows)]
+            if ok and (after.shape != base.shape or after.dtype != base.dtype):
+                ctx.violation(f"{fn}:coords-shape-or-dtype-changed", f"{fn} with a {kind} argument: coords {base.dtype}{base.shape} -> {after.dtype}{after.shape}", case)
+                ok = False
+            if ok and others and after[others].tobytes() != base[others].tobytes():
+                ctx.violation(f"{fn}:atoms-outside-selection-changed", f"{fn} with a {kind} argument changed unselected atoms", case)
+                ok = False
+            if ok and float(np.max(np.abs(after[srt] - expected))) > (1e-6 if loose else TOL) * N.mag(base, expected):
+                ctx.violation(f"{fn}:argument-kind-dependent-result", f"{fn} with a {kind} argument: not the documented effect", case)
+                ok = False
+        elif fn.startswith("ConformerEnsemble."):
+            e, base = _posed_ens(ctx, case["ens"])
+            nc, na = base.shape[:2]
+            args = []
+            if fn.endswith("translate[1d]"):
+                a1 = Arg(case["vec"], kind)
+                e.translate(a1.obj)
+                expected = base + a1.value
+            elif fn.endswith("translate[2d]"):
+                a1 = Arg([np.array(case["vec"], dtype=float) * (j + 1) for j in range(nc)], kind)
+                e.translate(a1.obj)
+                expected = base + a1.value[:, None, :]
+            elif fn.endswith("rotate[matrix]"):
+                a1 = Arg(N.rot_axis_angle(*case["rot"]), kind)
+                e.rotate(a1.obj if isinstance(a1.obj, np.ndarray) else np.array(a1.obj))
+                expected = base @ a1.value
+            elif fn.endswith("rotate[stack]"):
+                a1 = Arg([N.rot_axis_angle(case["rot"][0], case["rot"][1] + 0.4 * j) for j in range(nc)], kind)
+                e.rotate(a1.obj if isinstance(a1.obj, np.ndarray) else np.array(a1.obj))
+                expected = np.einsum("kij,kjl->kil", base, a1.value)
+            elif fn.endswith("coords="):
+                a1 = Arg(base @ N.rot_axis_angle(*case["rot"]) + np.array(case["vec"], dtype=float), kind)
+                e.coords = a1.obj
+                expected = a1.value
+            elif fn.endswith("center_at_core"):
+                core = [int(x) for x in case["core"]]
+                a1 = Arg(core, kind)
+                a1.obj = list(core) if kind == "list" else tuple(core)  # python ints, as documented
+                a1.snap = a1._snapshot()
+                e.center_at_core(a1.obj)
+                expected = base - np.mean(base[:, core, :], axis=1, keepdims=True)
+            elif fn.endswith("align_to_ref_coords"):
+                maps = [[int(x) for x in mm] for mm in case["maps"]]
+                refmol = ml.Molecule(e[0])
+                refc = base[0] @ N.pose_matrix(3)[0] + N.pose_matrix(3)[1]
+                refmol._coords = refc.copy()
+                refsub = refmol.substructure(list(maps[0]))
+                cen = np.mean(refc[maps[0]], axis=0)
+                refsub.translate(-cen)
+                refbytes = np.asarray(refmol.coords).tobytes()
+                a1 = Arg(cen, kind)
+                amaps = [list(mm) for mm in maps]
+                ret = e.align_to_ref_coords(_harness_kabsch([]), amaps, refsub, a1.obj)
+                if amaps != maps:
+                    ctx.violation(f"{fn}:argument-array-modified", f"{fn} changed its list of index mappings", case)
+                    ok = False
+                if np.asarray(refmol.coords).tobytes() != refbytes:
+                    ctx.violation(f"{fn}:argument-array-modified", f"{fn} changed the reference coordinates", case)
+                    ok = False
+                Q = np.array(refsub.coords, dtype=float)
+                fin = np.asarray(e.coords, dtype=float)
+                expected = None
+                for k in range(nc):
+                    ach = min(N.rmsd(fin[k][mm] - a1.value, Q) for mm in maps)
+                    if ok and abs(ach - float(ret[k])) > (1e-5 if loose else TOL) * max(1.0, N.extent(Q)):
+                        ctx.violation(f"{fn}:argument-kind-dependent-result", f"{fn} with a {kind} vec: returned RMSD {float(ret[k]):.9g}, achieved {ach:.9g}", case)
+                        ok = False
+            else:
+                raise KeyError(fn)
+            ok = _check_args(ctx, fn, case, [("arg", a1)]) and ok
+            after = np.asarray(e.coords)
+            if ok and (after.shape != base.shape or after.dtype != base.dtype):
+                ctx.violation(f"{fn}:coords-shape-or-dtype-changed", f"{fn} with a {kind} argument: coords {base.dtype}{base.shape} -> {after.dtype}{after.shape}", case)
+                ok = False
+            if ok and expected is not None and float(np.max(np.abs(after - expected))) > (1e-6 if loose else TOL) * N.mag(base, expected):
+                ctx.violation(f"{fn}:argument-kind-dependent-result", f"{fn} with a {kind} argument: not the documented effect", case)
+                ok = False
+        else:
+            raise KeyError(fn)
+    except Exception as ex:
+        ctx.violation(f"{fn}:raised-{_exc(ex)}[{'read-only' if kind == 'float64-readonly' else 'array-like'}-argument]", f"{fn} with a {kind} argument raised {_exc(ex)}: {ex}", case)
+        ok = False
+    ctx.outcome(("arg", fn, kind, ok))
+    if ok:
+        ctx.nontrivial(("arg", fn, kind, repr({k: v for k, v in case.items() if k not in ("family", "fn", "kind")})))
+
+
+def arg_cases(ctx):
+    G = _G(ctx)
+    lat0 = N.lattice_vectors(None)
+    lat1 = N.lattice_vectors(G)
+    out = []
+    pairs = [(lat0[3], lat0[9]), (lat0[6], -2.0 * lat0[6]), (lat0[60], lat0[30]), (lat0[25], lat0[25] * 3.0), (lat1[7], lat1[40]), (lat1[55], -lat1[55]), (lat1[30], lat0[70])]
+    for v1, v2 in pairs:
+        for kind in _kinds_for(np.concatenate([v1, v2])):
+            for which in ("both", "v1", "v2"):
+                out.append({"family": "arg", "fn": "rotation_matrix_from_vectors", "kind": kind, "which": which, "v1": N.lst(v1), "v2": N.lst(v2)})
+    for ax in (lat0[3], lat0[20], lat0[52 + 11], lat0[26 + 5], lat1[9], lat1[60], lat1[33]):
+        for ang in (2.0, -PI / 6, PI):
+            for kind in _kinds_for(ax):
+                out.append({"family": "arg", "fn": "rotation_matrix_from_axis", "kind": kind, "axis": N.lst(ax), "angle": ang})
+    vecs = [lat0[8], lat0[52 + 2], lat1[17], lat1[26 + 4]]
+    rots = [[N.lst(lat0[5]), PI / 2], [N.lst(lat1[12]), 2.0]]
+    for name in MOLS_QUICK:
+        topo = _topo("mol", name)
+        sels = [s_ for s_ in selections(topo) if len(s_) < topo.n][:3]
+        for v in vecs:
+            for kind in _kinds_for(v):
+                out.append({"family": "arg", "fn": "Molecule.translate", "kind": kind, "mol": name, "vec": N.lst(v)})
+                for sel in sels:
+                    out.append({"family": "arg", "fn": "Substructure.translate", "kind": kind, "mol": name, "sel": sel, "vec": N.lst(v)})
+        for r in rots:
+            for kind in ARG_KINDS:
+                if kind == "int64":
+                    continue
+                out.append({"family": "arg", "fn": "Molecule.transform", "kind": kind, "mol": name, "rot": r})
+                out.append({"family": "arg", "fn": "Molecule.coords=", "kind": kind, "mol": name, "rot": r, "vec": N.lst(vecs[2])})
+                for sel in sels:
+                    out.append({"family": "arg", "fn": "Substructure.transform", "kind": kind, "mol": name, "sel": sel, "rot": r})
+                    out.append({"family": "arg", "fn": "Substructure.coords=", "kind": kind, "mol": name, "sel": sel, "rot": r, "vec": N.lst(vecs[0])})
+    chain = [0, 1, 5, 8, 11]
+    for ename in ENS_ALL:
+        for v in vecs:
+            for kind in _kinds_for(v):
+                out.append({"family": "arg", "fn": "ConformerEnsemble.translate[1d]", "kind": kind, "ens": ename, "vec": N.lst(v)})
+                out.append({"family": "arg", "fn": "ConformerEnsemble.translate[2d]", "kind": kind, "ens": ename, "vec": N.lst(v)})
+        for r in rots:
+            for kind in ARG_KINDS:
+                if kind == "int64":
+                    continue
+                out.append({"family": "arg", "fn": "ConformerEnsemble.rotate[matrix]", "kind": kind, "ens": ename, "rot": r})
+                out.append({"family": "arg", "fn": "ConformerEnsemble.rotate[stack]", "kind": kind, "ens": ename, "rot": r})
+                out.append({"family": "arg", "fn": "ConformerEnsemble.coords=", "kind": kind, "ens": ename, "rot": r, "vec": N.lst(vecs[1])})
+        for core in ([0, 1, 2], [3, 0]):
+            for kind in ("list", "tuple"):  # documented as list[int]: python ints only
+                out.append({"family": "arg", "fn": "ConformerEnsemble.center_at_core", "kind": kind, "ens": ename, "core": core})
+    for maps in ([chain], [chain, chain[::-1]]):
+        for kind in ARG_KINDS:
+            if kind == "int64":
+                continue
+            out.append({"family": "arg", "fn": "ConformerEnsemble.align_to_ref_coords", "kind": kind, "ens": "pentane_confs", "maps": maps})
+    return out
+
+
+def part_arg(ctx, spec):
+    lo, hi = spec
+    for i, c in enumerate(arg_cases(ctx)[lo:hi]):
+        exec_arg(ctx, c)
+        if lo == 0 and i == 1:
+            ctx.sample(c)
+
+
+# ---- own : the argument is a view of the object's own coordinates ------------------------------------
+def _own_view(obj, how, i, j=None):
+    if how == "get_atom_coord":
+        return obj.get_atom_coord(i)
+    if how == "coords[i]":
+        return obj.coords[i]
+    if how == "vector(i,j)":
+        return obj.vector(j, i)  # coords[i] - coords[j]: a fresh array computed from two views
+    raise KeyError(how)
+
+
+def exec_own(ctx, case):
+    hist = case["hist"]
+    how = case.get("how", "get_atom_coord")
+    ctx.count(evaluations=1, states=1, traces=1)
+    pre = f"own-coordinates-as-argument[{hist}]"
+    ok = True
+    try:
+        if hist in ("orient", "axis-through-own-atom", "vectors-between-own-atoms"):
+            m, base = _posed_mol(ctx, case["mol"])
+            topo = _topo("mol", case["mol"])
+            A, C = int(case["A"]), int(case["C"])
+            what = f"{hist} on {case['mol']} (A={A}, C={C}, argument via {how})"
+            # step 1: put A at the origin (fresh array: the negated view)
+            m.translate(-_own_view(m, "get_atom_coord", A))
+            ctx.count(transitions=1)
+            s1 = np.array(m.coords, dtype=float, copy=True)
+            if float(np.max(np.abs(s1 - (base - base[A])))) > TOL * N.mag(base):
+                ctx.violation(f"{pre}:translate(-own-row)-not-the-documented-effect", f"{what}: translate(-get_atom_coord(A)) did not put A at the origin rigidly", case)
+                return
+            # step 2: only COMPUTE the matrix from a view into the molecule
+            if hist == "orient":
+                tgt = Arg(case["target"], case.get("tkind", "list"))
+                view = _own_view(m, how, C, A)
+                with N.RandSeam(N.answer_sequence(N.RNG_MENU[0])):
+                    R = np.asarray(rotation_matrix_from_vectors(view, tgt.obj), dtype=float)
+                fn = "rotation_matrix_from_vectors"
+                if not tgt.intact():
+                    ctx.violation(f"{fn}:argument-array-modified", f"{what}: the target vector ({tgt.kind}) was changed", case)
+                    return
+            elif hist == "vectors-between-own-atoms":
+                B = int(case["B"])
+                with N.RandSeam(N.answer_sequence(N.RNG_MENU[0])):
+                    R = np.asarray(rotation_matrix_from_vectors(_own_view(m, how, C, A), _own_view(m, how, B, A)), dtype=float)
+                fn = "rotation_matrix_from_vectors"
+            else:
+                R = np.asarray(rotation_matrix_from_axis(_own_view(m, how, C, A), float(case["angle"])), dtype=float)
+                fn = "rotation_matrix_from_axis"
+            ctx.count(transitions=1)
+            s2 = np.asarray(m.coords)
+            if s2.shape != s1.shape or s2.tobytes() != s1.tobytes():
+                nchg = int(np.sum(np.any(s2 != s1, axis=1))) if s2.shape == s1.shape else -1
+                ctx.violation(
+                    f"{fn}:molecule-changed-by-computing-the-matrix(argument-is-a-view-of-its-coordinates)",
+                    f"{what}: merely computing the matrix moved {nchg} atom(s) of the molecule whose {how} was passed in",
+                    case,
+                )
+                ctx.outcome(("own", hist, how, "mutated"))
+                return
+            # step 3: apply it; the whole history is a rigid motion with the documented effect
+            m.transform(R)
+            ctx.count(transitions=1)
+            fin = np.asarray(m.coords)
+            ok = judge_edit(ctx, pre, case, base, fin, list(range(m.n_atoms)), None, topo.stereo_quads(), what=what)
+            M = N.mag(base)
+            rC = s1[C] if how != "vector(i,j)" else s1[C] - s1[A]
+            if ok and float(np.max(np.abs(fin[A]))) > TOL * M:
+                ctx.violation(f"{pre}:pivot-atom-left-the-origin", f"{what}: atom A is at {fin[A].tolist()}", case)
+                ok = False
+            if ok and hist == "orient":
+                want = float(np.linalg.norm(rC)) * N.unit(tgt.value)
+                t = max(TOL, rv_tol(_one_plus_c(rC, tgt.value))) * M
+                if float(np.max(np.abs(fin[C] - want))) > t:
+                    ctx.violation(f"{pre}:atom-not-on-the-target-axis-at-its-distance", f"{what}: C is at {fin[C].tolist()}, expected {want.tolist()}", case)
+                    ok = False
+            if ok and hist == "vectors-between-own-atoms":
+                B = int(case["B"])
+                rB = s1[B] if how != "vector(i,j)" else s1[B] - s1[A]
+                want = float(np.linalg.norm(rC)) * N.unit(rB)
+                t = max(TOL, rv_tol(_one_plus_c(rC, rB))) * M
+                if float(np.max(np.abs(fin[C] - want))) > t:
+                    ctx.violation(f"{pre}:atom-not-on-the-target-axis-at-its-distance", f"{what}: C is at {fin[C].tolist()}, expected {want.tolist()}", case)
+                    ok = False
+            if ok and hist == "axis-through-own-atom":
+                if float(np.max(np.abs(fin[C] - s1[C]))) > TOL * M:
+                    ctx.violation(f"{pre}:atom-on-the-axis-moved", f"{what}: the atom defining the axis moved by {float(np.max(np.abs(fin[C] - s1[C]))):.3g}", case)
+                    ok = False
+        elif hist in ("translate(own-row-view)", "Substructure.coords=(own-slice-view)"):
+            m, base = _posed_mol(ctx, case["mol"])
+            topo = _topo("mol", case["mol"])
+            A = int(case["A"])
+            what = f"{hist} on {case['mol']} (A={A}, {how})"
+            if hist.startswith("translate"):
+                m.translate(_own_view(m, how, A))
+                moved, expected = list(range(m.n_atoms)), base + base[A]
+            else:
+                sel = [int(x) for x in case["sel"]]
+                lo = int(case["lo"])
+                m.substructure(list(sel)).coords = m.coords[lo : lo + len(sel)]
+                moved = sel
+                expected = base[lo : lo + len(sel)][np.argsort(np.array(sel), kind="stable")]
+            ctx.count(transitions=1)
+            fin = np.asarray(m.coords)
+            ok = judge_edit(ctx, pre, case, base, fin, moved, expected, topo.stereo_quads() if hist.startswith("translate") else (), what=what) if hist.startswith("translate") else True
+            if not hist.startswith("translate"):
+                others = [i for i in range(m.n_atoms) if i not in set(sel)]
+                if fin[others].tobytes() != base[others].tobytes():
+                    ctx.violation(f"{pre}:atoms-outside-selection-changed", f"{what}: unselected atoms changed", case)
+                    ok = False
+                elif float(np.max(np.abs(fin[sorted(sel)] - expected))) > 0.0:
+                    ctx.violation(f"{pre}:not-the-documented-effect", f"{what}: the selected rows are not the assigned values (as they were before the call)", case)
+                    ok = False
+        elif hist in ("ens.translate(own-column-view)", "ens.translate(own-row-view)", "Conformer.coords=(other-conformer-view)", "Conformer.translate(other-conformer-row-view)", "align(vec=view-of-reference-coords)"):
+            e, base = _posed_ens(ctx, case["ens"])
+            topo = _topo("ens", case["ens"])
+            nc, na = base.shape[:2]
+            i, k, j = int(case.get("atom", 0)), int(case.get("conf", 0)), int(case.get("other", 0))
+            what = f"{hist} on {case['ens']} (atom {i}, conformer {k}, other {j})"
+            if hist == "ens.translate(own-column-view)":
+                e.translate(e.coords[:, i])
+                expected = base + base[:, i : i + 1, :]
+            elif hist == "ens.translate(own-row-view)":
+                e.translate(e.coords[k, i])
+                expected = base + base[k, i]
+            elif hist == "Conformer.coords=(other-conformer-view)":
+                e[k].coords = e.coords[j]
+                expected = base.copy()
+                expected[k] = base[j]
+            elif hist == "Conformer.translate(other-conformer-row-view)":
+                e[k].translate(e.coords[j, i])
+                expected = base.copy()
+                expected[k] = base[k] + base[j, i]
+            else:
+                maps = [[int(x) for x in mm] for mm in case["maps"]]
+                refmol = ml.Molecule(e[j])
+                refc = base[j] @ N.pose_matrix(2)[0] + N.pose_matrix(2)[1]
+                refmol._coords = refc.copy()
+                refsub = refmol.substructure(list(maps[0]))
+                refsub.translate(-np.mean(refc[maps[0]], axis=0))
+                far = [a for a in range(na) if a not in maps[0]][0]
+                before_ref = np.array(refmol.coords, copy=True)
+                vecview = refmol.coords[far]  # a view into the reference molecule's coordinate array
+                ret = e.align_to_ref_coords(_harness_kabsch([]), [list(mm) for mm in maps], refsub, vecview)
+                if np.asarray(refmol.coords).tobytes() != before_ref.tobytes():
+                    ctx.violation("ConformerEnsemble.align_to_ref_coords:argument-array-modified", f"{what}: the reference coordinates (vec is a view of them) were changed", case)
+                    return
+                Q = np.array(refsub.coords, dtype=float)
+                fin = np.asarray(e.coords, dtype=float)
+                expected = None
+                for kk in range(nc):
+                    ach = min(N.rmsd(fin[kk][mm] - before_ref[far], Q) for mm in maps)
+                    if abs(ach - float(ret[kk])) > TOL * max(1.0, N.extent(Q)):
+                        ctx.violation(f"{pre}:returned-rmsd-differs-from-achieved", f"{what}: conformer {kk}: returned {float(ret[kk]):.9g}, achieved {ach:.9g}", case)
+                        ok = False
+                        break
+            ctx.count(transitions=1)
+            fin = np.asarray(e.coords)
+            if expected is not None:
+                if fin.shape != base.shape or float(np.max(np.abs(fin - expected))) > TOL * N.mag(base, expected):
+                    ctx.violation(f"{pre}:not-the-documented-effect", f"{what}: result differs from the documented effect computed with the argument's value at call time", case)
+                    ok = False
+            else:
+                for kk in range(nc):
+                    ok = judge_edit(ctx, pre, case, base[kk], fin[kk], list(range(na)), None, topo.stereo_quads(), what=what) and ok
+                    if not ok:
+                        break
+        else:
+            raise KeyError(hist)
+    except Exception as ex:
+        ctx.violation(f"{pre}:raised-{_exc(ex)}", f"{hist} raised {_exc(ex)}: {ex}", case)
+        ok = False
+    ctx.outcome(("own", hist, how, ok))
+    if ok:
+        ctx.nontrivial(("own", repr(sorted((k, repr(v)) for k, v in case.items()))))
+
+
+def own_cases(ctx, name):
+    topo = _topo("mol", name)
+    G = _G(ctx)
+    lat1 = N.lattice_vectors(G)
+    out = []
+    targets = [([0.0, 0.0, 1.0], "list"), ([0.0, 0.0, 1.0], "float64"), ([1.0, 0.0, 0.0], "tuple"), (N.lst(lat1[13] * 2.5), "float64"), ([0.0, -3.0, 0.0], "int64")]
+    pairs = [(i, j) for i, j in topo.bonds] + [(j, i) for i, j in topo.bonds]
+    for n_, (A, C) in enumerate(pairs):
+        for hi, how in enumerate(("get_atom_coord", "coords[i]", "vector(i,j)")):
+            tv, tk = targets[(n_ + hi) % len(targets)]
+            out.append({"family": "own", "hist": "orient", "mol": name, "A": A, "C": C, "how": how, "target": tv, "tkind": tk})
+            tv, tk = targets[(n_ + hi + 2) % len(targets)]
+            out.append({"family": "own", "hist": "orient", "mol": name, "A": A, "C": C, "how": how, "target": tv, "tkind": tk})
+            out.append({"family": "own", "hist": "axis-through-own-atom", "mol": name, "A": A, "C": C, "how": how, "angle": ANGLES[3 + (n_ + hi) % 8]})
+            others = [b for b in topo.adj[A] if b != C]
+            if others:
+                out.append({"family": "own", "hist": "vectors-between-own-atoms", "mol": name, "A": A, "C": C, "B": others[n_ % len(others)], "how": how})
+        for how in ("get_atom_coord", "coords[i]"):
+            out.append({"family": "own", "hist": "translate(own-row-view)", "mol": name, "A": A, "how": how})
+    n = topo.n
+    for sel in selections(topo):
+        if len(sel) < n:
+            for lo in sorted({0, max(0, min(sel)), n - len(sel)}):
+                if lo + len(sel) <= n:
+                    out.append({"family": "own", "hist": "Substructure.coords=(own-slice-view)", "mol": name, "A": 0, "sel": sel, "lo": lo})
+    return out
+
+
+def own_ens_cases(ctx):
+    out = []
+    chain = [0, 1, 5, 8, 11]
+    for ename in ENS_ALL:
+        e = _raw_ens(ename)
+        nc, na = e.coords.shape[:2]
+        for i in range(na):
+            out.append({"family": "own", "hist": "ens.translate(own-column-view)", "ens": ename, "atom": i})
+            out.append({"family": "own", "hist": "ens.translate(own-row-view)", "ens": ename, "atom": i, "conf": i % nc})
+        for k in range(nc):
+            for j in range(nc):
+                if j != k:
+                    out.append({"family": "own", "hist": "Conformer.coords=(other-conformer-view)", "ens": ename, "conf": k, "other": j})
+                    out.append({"family": "own", "hist": "Conformer.translate(other-conformer-row-view)", "ens": ename, "conf": k, "other": j, "atom": (k + j) % na})
+    for j in (0, 4):
+        for maps in ([chain], [chain, chain[::-1]], [chain[:3], chain[::-1][:3]]):
+            out.append({"family": "own", "hist": "align(vec=view-of-reference-coords)", "ens": "pentane_confs", "other": j, "maps": maps})
+    return out
+
+
+def part_own(ctx, spec):
+    kind, name, lo, hi = spec
+    cs = (own_cases(ctx, name) if kind == "mol" else own_ens_cases(ctx))[lo:hi]
+    for i, c in enumerate(cs):
+        exec_own(ctx, c)
+        if lo == 0 and i == 0 and name in ("twofrag", None):
+            ctx.sample(c)
+
+
+# =====================================================================================================
+EXEC = {"rv": exec_rv, "ra": exec_ra, "mol": exec_mol, "dih": exec_dih, "ens": exec_ens, "aln": exec_aln, "hist": exec_hist, "histens": exec_histens, "arg": exec_arg, "own": exec_own}
+PARTS = {"rv_pairs": part_rv_pairs, "rv_anti": part_rv_anti, "ra": part_ra, "mol": part_mol, "dih": part_dih, "ens": part_ens, "aln": part_aln, "hist": part_hist, "histens": part_histens, "arg": part_arg, "own": part_own}
 
 
 def _run_part(ctx, part):
@@ -1406,6 +1910,13 @@ def run(ctx):
         parts.append(("histens", name))
     for name in mols:
         parts.append(("hist", name))
+    for lo, hi in _chunks(len(arg_cases(ctx)), 4):
+        parts.append(("arg", (lo, hi)))
+    for name in mols:
+        n_own = len(own_cases(ctx, name))
+        for lo, hi in _chunks(n_own, 4 if n_own > 400 else 1):
+            parts.append(("own", ("mol", name, lo, hi)))
+    parts.append(("own", ("ens", None, 0, len(own_ens_cases(ctx)))))
     na = len(aln_cases(ctx))
     for lo, hi in _chunks(na, 8):
         parts.append(("aln", (lo, hi)))
